@@ -4,17 +4,17 @@ CONSTANTS
   Types = {"T1"}
   Procs = {1, 2}
   Fns = {"f0"}
-  Vals = {"a", "b"}
+  Vals = {"a"}
   Ctxs = {"c1"}
   PubCtxs = {"bg", "c1"}
-  Profiles <- c04Profiles
+  Profiles <- c07Profiles
   Cfgs <- noCfg
-  TopKinds = {"sub", "unsub", "pub", "cancel", "wait"}
+  TopKinds = {"sub", "pub", "wait"}
   Roles <- allRoles
   MaxReg = 2
-  MaxPub = 3
+  MaxPub = 2
   MaxTop = 0
   Mutant = "none"
-INVARIANTS TypeOK AtMostOncePerPublish MustNotDeliver MustDeliver OnceAtMostOnce OnceRetired RegistrySound WaitCovers OnceNotWasted
+INVARIANTS TypeOK AtMostOncePerPublish MustNotDeliver MustDeliver NoOverlap SeqFifo WaitCovers
 CHECK_DEADLOCK FALSE
 VIEW View
